@@ -77,6 +77,8 @@ def reference_greedy(scores, maximizers, starts, ends, th):
         c = maximizers[best]
         cpts.append(c)
         remaining = [i for i in remaining if not (starts[i] <= c < ends[i])]
+        if best in remaining:       # cannot happen for an admissible maximiser
+            return None
     return sorted(cpts)
 
 
@@ -301,6 +303,9 @@ def replay(cx):
             b = max(cand, key=lambda i: vals[i])
             ref.append(maxi[b])
             rem = [i for i in rem if not (starts[i] <= maxi[b] < ends[i])]
+            if b in rem:
+                bad.append(f"reported maximiser {maxi[b]} lies outside its own interval [{starts[b]},{ends[b]})")
+                break
         if sorted(ref) != cpts:
             bad.append(f"changepoints {cpts} but greedy reference gives {sorted(ref)} (scores {vals}, threshold {th:.6g})")
     if "cpts_higher" in info:
